@@ -768,6 +768,9 @@ func writeEvidence(ck *Check, prop, tier string, master uint64, st *Stats, wall 
 		"runs_per_hour":         int64(float64(st.Evals) / wall * 3600),
 		"simulated_time_s":      st.C["sim_time_s"],
 		"counters":              st.C,
+		"faults_fired":          firedOf(st.C),
+		"reach":                 st.SetSizes(),
+		"case_seeds":            fmt.Sprintf("case i uses seed mix(VERIF_SEED=%d, i), i in [0,%d); every choice of the case (generation, schedule, crypto randomness) derives from it", master, st.Evals),
 		"known_findings_active": nknown,
 		"relaxations_active":    relax,
 		"real_vs_stub":          "real: pkg/fs, pkg/operations, pkg/recovery, pkg/persisters (SQLite), pkg/tape on tmpfs files, codecs, crypto; instrumented by overlay: sync.Mutex, go statements, os.Stat/Open in pkg/tape; stub/not run: pkg/mtio tape ioctls (DriveIsRegular=false), cmd/stfs",
@@ -936,4 +939,14 @@ func tail(s string, n int) string {
 		return s[len(s)-n:]
 	}
 	return s
+}
+
+func firedOf(c map[string]int64) map[string]int64 {
+	out := map[string]int64{}
+	for k, v := range c {
+		if strings.HasPrefix(k, "fired_") {
+			out[k[len("fired_"):]] = v
+		}
+	}
+	return out
 }
